@@ -54,7 +54,8 @@ def _r022(ctx: Ctx) -> None:
     #          x: q0 q1 q2 q3 | z: q0 q1 q2 q3
     css = [[1, 1, 0, 0, 0, 0, 0, 0],      # X-type on q0,q1
            [0, 0, 0, 0, 0, 1, 1, 1],      # Z-type on q1,q2,q3
-           [0, 0, 1, 1, 0, 0, 0, 0]]      # X-type on q2,q3
+           [0, 0, 0, 1, 0, 0, 0, 0],      # X-type on q3 alone (a user-defined code may have weight-1 checks)
+           [0, 0, 0, 0, 1, 0, 0, 0]]      # Z-type on q0 alone
     mixed = [[1, 1, 0, 0, 0, 0, 0, 0],
              [0, 1, 0, 0, 0, 1, 1, 0],    # Y on q1, Z on q2
              [0, 0, 0, 0, 0, 0, 1, 1]]
@@ -64,9 +65,9 @@ def _r022(ctx: Ctx) -> None:
                facts={'got': repr(got)})
 
     fn, v = _prop(ctx, 'x_indices', _css_code(ctx, css))
-    ob(fn, 'x_indices = rows with an X component (CSS matrix)', _aslist(v), [True, False, True], 'x_indices|css')
+    ob(fn, 'x_indices = rows with an X component (CSS matrix)', _aslist(v), [True, False, True, False], 'x_indices|css')
     fn, v = _prop(ctx, 'z_indices', _css_code(ctx, css))
-    ob(fn, 'z_indices = rows with a Z component (CSS matrix)', _aslist(v), [False, True, False], 'z_indices|css')
+    ob(fn, 'z_indices = rows with a Z component (CSS matrix)', _aslist(v), [False, True, False, True], 'z_indices|css')
     fn, v = _prop(ctx, 'x_indices', _css_code(ctx, mixed))
     ob(fn, 'x_indices on a mixed (non-CSS) matrix', _aslist(v), [True, True, False], 'x_indices|mixed')
     fn, v = _prop(ctx, 'z_indices', _css_code(ctx, mixed))
@@ -77,18 +78,18 @@ def _r022(ctx: Ctx) -> None:
     ob(fn, 'is_css false when a row has X and Z components', bool(v) if not isinstance(v, str) else v, False,
        'is_css|mixed')
     fn, v = _prop(ctx, 'Hx', _css_code(ctx, css))
-    ob(fn, 'Hx = X-rows of the X block', _aslist(v), [[1, 1, 0, 0], [0, 0, 1, 1]], 'Hx|css')
+    ob(fn, 'Hx = X-rows of the X block', _aslist(v), [[1, 1, 0, 0], [0, 0, 0, 1]], 'Hx|css')
     fn, v = _prop(ctx, 'Hz', _css_code(ctx, css))
-    ob(fn, 'Hz = Z-rows of the Z block', _aslist(v), [[0, 1, 1, 1]], 'Hz|css')
+    ob(fn, 'Hz = Z-rows of the Z block', _aslist(v), [[0, 1, 1, 1], [1, 0, 0, 0]], 'Hz|css')
     fn, v = _prop(ctx, 'Hx', _css_code(ctx, mixed))
     ob(fn, 'Hx refuses non-CSS codes', v, 'raises ValueError', 'Hx|mixed')
     fn, v = _prop(ctx, 'Hz', _css_code(ctx, mixed))
     ob(fn, 'Hz refuses non-CSS codes', v, 'raises ValueError', 'Hz|mixed')
-    syn = np.array([7, 8, 9])
+    syn = np.array([7, 8, 9, 10])
     fn, v = _prop(ctx, 'extract_x_syndrome', _css_code(ctx, css), [syn])
     ob(fn, 'extract_x_syndrome picks the X-rows', _aslist(v), [7, 9], 'extract_x_syndrome')
     fn, v = _prop(ctx, 'extract_z_syndrome', _css_code(ctx, css), [syn])
-    ob(fn, 'extract_z_syndrome picks the Z-rows', _aslist(v), [8], 'extract_z_syndrome')
+    ob(fn, 'extract_z_syndrome picks the Z-rows', _aslist(v), [8, 10], 'extract_z_syndrome')
 
 
 # ------------------------------------------------------------------- R02.3
